@@ -79,7 +79,7 @@ fn fixture(cfg: &GenCfg) -> impl Strategy<Value = FixtureSpec> {
         names_vec(cfg, 2),
         prop_oneof![5 => Just(0u8), 1 => Just(1u8), 2 => Just(2u8), 1 => Just(3u8), 2 => Just(4u8)],
         prop_oneof![6 => Just(false), 1 => Just(true)],
-        0u8..3,
+        prop_oneof![4 => 0u8..3, 1 => 3u8..6],
         0u8..3,
         prop_oneof![8 => Just(Vec::new()), 1 => names_vec(cfg, 1)],
         prop_oneof![5 => Just(Vec::new()), 1 => names_vec(cfg, 2)],
